@@ -43,15 +43,13 @@ Theorem emitted_conform_refuted : exists ops,
 Proof. exact cue_as_found_does_not_conform. Qed.
 
 (* ------------------------------------------------------------------------------------ *)
-(* ids_only_allocated, PARTIAL: for the fixed-shape ops every id at an id position of an
-   emitted message is an id held by a client object of the state in which the op ran, an id
-   supplied by the allocators or by the caller in that op, or 0 / the default group.
-   Full statement (all ops, including ids inside control values): harness id ledger only. *)
-Theorem ids_only_allocated_partial : forall s o s1 sends e,
-  inv s -> fixed_shape o = true -> obj_step repaired s o = (s1, sends, e) ->
-  forall m w k i, In m (flat_map send_msgs sends) -> wire_msg m = Some w -> In (k, i) (msg_ids w) ->
-  known_id s s1 o k i.
-Proof. exact ids_known. Qed.
+(* ids_only_allocated: NOT PROVED.  Full statement:
+     forall ops s, inv s -> wf ops -> every (kind, id) in [msg_ids w] of every emitted w is an id
+     returned by an allocator oracle of an earlier op and not freed since, an id the caller wrote
+     in the op (TgInt, bufnum=, index=), 0, the default group, or -1 where the reference allows it.
+   [msg_ids] (model/ProtoGrammar.v) is the executable definition of "id mentioned"; the check is
+   done on every captured message of every valid history by the id ledger of harness/props/C17.py
+   (monitor M2), and the creation / free theorems below pin the ids of those commands. *)
 
 (* ------------------------------------------------------------------------------------ *)
 (* Creating an object emits its creation command with the object's own id. *)
